@@ -30,7 +30,7 @@ func init() {
 		Real:       append(append([]string{}, realAll...), "db/fs (compiled against the simulated os)", "db/postgres"),
 		Stub:       append(append([]string{}, stubAll...), "reference model refvm (oracle)", "OS filesystem (simfs)", "Postgres server (pgfake)"),
 		HangIsViolation: true, // the property promises that requests are served
-		FaultKinds: []string{"restart", "ext_terminate", "ext_error", "ext_flags", "client_garbage"},
+		FaultKinds: []string{"template_lookup_error", "restart", "ext_terminate", "ext_error", "ext_flags", "client_garbage"},
 	})
 }
 
@@ -76,6 +76,7 @@ func runC20(c *core.Ctx) *core.Outcome {
 			in = genInput(t, a, cur, 1)
 		}
 		clear := t.Chance(1, 6)
+		tplFault := t.Chance(1, 8)
 		t.End()
 		wasEnded, wasBlocked := r.m.Ended, r.m.Blocked
 		flagsBefore := r.m.UserFlags()
@@ -84,6 +85,11 @@ func runC20(c *core.Ctx) *core.Outcome {
 			clearTerminate(r)
 			o.Probes["terminate_cleared_by_harness"]++
 			break
+		}
+		if tplFault && !wasBlocked {
+			// the page of this request cannot be rendered (template store down): whatever the request
+			// does to the session - continue, end, block - holds all the same
+			r.s.FailTemplateThisRequest = true
 		}
 		ob := r.request(in, true)
 		o.Counts["requests"]++
